@@ -41,9 +41,16 @@ func typeOfFull(full string) reflect.Type {
 	return reflect.TypeOf(mt.New().Interface())
 }
 
+// specialPkgs: corpus packages that only dedicated passes use (types outside the value bridge: proto2 messages with
+// required fields below them).
+var specialPkgs = map[string]bool{"req": true}
+
 func loadTargets() []*Target {
 	var out []*Target
 	for _, p := range vreg.Pkgs {
+		if specialPkgs[p.Name] {
+			continue
+		}
 		for i := range p.Messages {
 			mi := &p.Messages[i]
 			md := mi.Proto.ProtoReflect().Descriptor()
